@@ -31,16 +31,28 @@ LEVEL_TEXT = ("Kernel-checked: unrolling is slice-wise renaming — the CPD of (
 LEVEL_NOTE = "Trusted: Lean kernel + standard axioms; model; harness."
 TECHNIQUE = "Lean 4 proof (unrolling = slice renaming, slice-wise elimination exact) + differential check of DBNInference against the brute-force posterior"
 
-VN = ["A", "B", "C"]
+VN = ["A", "B", "C", "D", "E", "F"]
 
 
-def gen_template(rng, good=None):
-    k = rng.randint(1, 3)
-    card = [rng.choice([2, 2, 3]) for _ in range(k)]
-    _, intra = gen.rand_dag_edges(rng, k, rng.choice(["chain", "gnp", "tree", "collider"]) if k > 1 else "isolated")
-    good = rng.random() < .6 if good is None else good
-    inter = []
-    if good:
+def gen_template(rng, good=None, allow_ring=False):
+    ring = allow_ring and good is not False and rng.random() < .08
+    if ring:
+        # a slice whose moral graph has a long chordless cycle (Z->A, Z->B, A->C, B->D, C->E, D->E): the junction trees of the interface
+        # algorithm need cascaded fill-in edges
+        k = 6
+        card = [rng.choice([2, 2, 2, 3]) for _ in range(k)]
+        perm = list(range(k))
+        rng.shuffle(perm)
+        intra = [[perm[a], perm[b]] for a, b in [(0, 1), (0, 2), (1, 3), (2, 4), (3, 5), (4, 5)]]
+        good = True
+        inter = [[v, v] for v in rng.sample(range(k), rng.randint(1, 2))]
+    else:
+        k = rng.randint(1, 3)
+        card = [rng.choice([2, 2, 3]) for _ in range(k)]
+        _, intra = gen.rand_dag_edges(rng, k, rng.choice(["chain", "gnp", "tree", "collider"]) if k > 1 else "isolated")
+        good = rng.random() < .6 if good is None else good
+        inter = []
+    if good and not ring:
         # the region where the interface algorithm is claimed to work: persistence edges only, every variable in an intra edge
         if k == 1:
             good = False
@@ -120,7 +132,7 @@ def build_dbn(tm):
 
 
 def gen_query(rng, tier):
-    tm = gen_template(rng)
+    tm = gen_template(rng, allow_ring=True)
     k = tm["k"]
     T = rng.randint(0, 3)
     while T > 1 and math.prod(tm["card"]) ** (T + 1) > 20000:
@@ -333,6 +345,15 @@ def run_history(case, drv):
 def gen_const(rng, tier):
     tm = gen_template(rng)
     tm["drop"] = rng.random() < .5
+    if rng.random() < .4:
+        # tables as people type them (0.33 / 0.33 / 0.33): every column sums to 1 only within the validation tolerance, and
+        # different columns have different sums.  The template functions copy tables; they do not repair them.
+        for f in tm["cpd0"] + tm["cpd1"]:
+            c0 = f["card"][0]
+            ncols = len(f["vals"]) // c0
+            sc = [1 + Fraction(rng.randint(-4, 4), 1000) for _ in range(ncols)]
+            f["vals"] = [rs(Fraction(f["vals"][i * ncols + j]) * sc[j]) for i in range(c0) for j in range(ncols)]
+        tm["rounded"] = True
     return tm
 
 
